@@ -12,7 +12,9 @@ import (
 	"os"
 	"os/exec"
 	"path/filepath"
+	"reflect"
 	"regexp"
+	"sort"
 	"strconv"
 	"strings"
 	"sync"
@@ -41,21 +43,51 @@ type c15Case struct {
 	Kind string `json:"kind"` // class of the input
 	A    string `json:"a"`    // base64 of the input bytes
 	B    string `json:"b,omitempty"`
+	// Census: how many constructs of each kind the generator wrote into a valid program (see c15CensusMap)
+	Census map[string]int `json:"census,omitempty"`
+}
+
+// c15CensusMap: constructs the grammar-directed generator counts as it writes them, and the node type the parser
+// must have built for each - the tree holds exactly as many, so nothing the text says is lost and nothing is invented
+var c15CensusMap = map[string]string{
+	"Switch": "SwitchStmt", "Try": "TryStmt", "Throw": "ThrowStmt", "Return": "ReturnStmt", "Break": "BreakStmt", "Continue": "ContinueStmt",
+	"CFor": "CForStmt", "Module": "ModuleStmt", "Var": "VarStmt", "Go": "GoroutineStmt", "Defer": "DeferStmt",
+	"Delete": "DeleteStmt", "Close": "CloseStmt", "Ternary": "TernaryOpExpr", "NilCoalesce": "NilCoalescingOpExpr", "Len": "LenExpr", "Import": "ImportExpr",
+	"MakeType": "MakeTypeExpr", "Slice": "SliceExpr",
+}
+
+func c15CountNodes(n interface{}, counts map[string]int) {
+	if n == nil {
+		return
+	}
+	rv := reflect.ValueOf(n)
+	if rv.Kind() == reflect.Ptr {
+		if rv.IsNil() {
+			return
+		}
+		counts[rv.Type().Elem().Name()]++
+	}
+	_, groups := astChildren(n)
+	for _, g := range groups {
+		for _, ch := range g {
+			c15CountNodes(ch, counts)
+		}
+	}
 }
 
 type c15Res struct {
-	I        int    `json:"i"`
-	Tokens   string `json:"tokens"`   // S-expression of the real token stream ("" when not collected)
-	ScanStop string `json:"scanstop"` // "" | "no-progress"
-	Outcome  string `json:"outcome"`  // ok | error | PANIC ...
-	ErrType  string `json:"errtype"`
-	Line     int    `json:"line"`
-	Col      int    `json:"col"`
-	Msg      string `json:"msg"`
-	Tree     bool   `json:"tree"`
-	PosOK    bool   `json:"pos_ok"`   // error position inside the input (in runes, as the scanner counts)
-	LineLen  int    `json:"line_len"` // length of the reported line in runes (-1: no such line)
-	NLines   int    `json:"nlines"`
+	I        int      `json:"i"`
+	Tokens   string   `json:"tokens"`   // S-expression of the real token stream ("" when not collected)
+	ScanStop string   `json:"scanstop"` // "" | "no-progress"
+	Outcome  string   `json:"outcome"`  // ok | error | PANIC ...
+	ErrType  string   `json:"errtype"`
+	Line     int      `json:"line"`
+	Col      int      `json:"col"`
+	Msg      string   `json:"msg"`
+	Tree     bool     `json:"tree"`
+	PosOK    bool     `json:"pos_ok"`   // error position inside the input (in runes, as the scanner counts)
+	LineLen  int      `json:"line_len"` // length of the reported line in runes (-1: no such line)
+	NLines   int      `json:"nlines"`
 	Problems []string `json:"problems,omitempty"`
 }
 
@@ -227,6 +259,23 @@ func c15One(i int, c c15Case) c15Res {
 		r.Tree = t != nil
 		if err == nil {
 			r.Outcome = "ok"
+			if c.Census != nil {
+				counts := map[string]int{}
+				c15CountNodes(t, counts)
+				var kinds []string
+				for k := range c15CensusMap {
+					kinds = append(kinds, k)
+				}
+				sort.Strings(kinds)
+				if l := counts["LoopStmt"] + counts["ForStmt"]; l != c.Census["Loop"]+c.Census["ForIn"] {
+					r.Problems = append(r.Problems, fmt.Sprintf("the text was written with %d loop / for-in construct(s), the tree holds %d LoopStmt / ForStmt node(s)", c.Census["Loop"]+c.Census["ForIn"], l))
+				}
+				for _, k := range kinds {
+					if counts[c15CensusMap[k]] != c.Census[k] {
+						r.Problems = append(r.Problems, fmt.Sprintf("the text was written with %d %s construct(s), the tree holds %d %s node(s)", c.Census[k], k, counts[c15CensusMap[k]], c15CensusMap[k]))
+					}
+				}
+			}
 			return
 		}
 		r.Outcome = "error"
@@ -405,9 +454,21 @@ func c15Main(seed uint64, n int, outDir, repo string) error {
 	for i := 0; i < n; i++ {
 		switch rnd.Pick([]int{30, 30, 25, 10, 5}) {
 		case 0:
+			before := map[string]int{}
+			for k, v := range gen.kinds {
+				before[k] = v
+			}
 			p := gen.program(1 + rnd.Intn(3))
+			census := map[string]int{}
+			for k := range c15CensusMap {
+				census[k] = gen.kinds[k] - before[k]
+			}
+			census["Loop"], census["ForIn"] = gen.kinds["Loop"]-before["Loop"], gen.kinds["ForIn"]-before["ForIn"]
+			if rnd.Chance(1, 5) { // empty statements in front change nothing
+				p = []string{";", ";;", "\n;\n", "; ;\n"}[rnd.Intn(4)] + p
+			}
 			valid = append(valid, p)
-			cases = append(cases, c15Case{Kind: "valid", A: enc(p)})
+			cases = append(cases, c15Case{Kind: "valid", A: enc(p), Census: census})
 		case 1:
 			p := c15MutateSrc(rnd, gen.program(1+rnd.Intn(3)))
 			if rnd.Bool() {
